@@ -221,6 +221,26 @@ Theorem C07_hierarchy_order_is_permutation : forall n l,
   List.length (hr_sort n l) = List.length l -> Permutation l (hr_sort n l).
 Proof. exact hr_sort_perm. Qed.
 
+(* independence of the textual order.  FULL statement (DESIGN `hierarchy_fixpoint`), NOT proved here: for an acyclic rule graph,
+   any two orders of the `=` rules that respect the dependencies give the same computed datapoints (as a set) and the same
+   final state — hence the result does not depend on the textual order of the ruleset nor on which topological order the
+   engine's sort picks.  PROVED: the step that carries it — two adjacent independent rules (different left items, neither
+   reads the item the other computes) can be swapped anywhere in the sequence without changing the computed datapoints
+   (up to order) or the content of the final state, for every validation mode and input mode.  Missing: the (standard)
+   fact that two linear extensions of one partial order are connected by such adjacent swaps. *)
+Theorem C07_hierarchy_order_independent_partial : forall m im chain st0 st pre r1 r2 post,
+  indep r1 r2 ->
+  st_eq (fst (hier_group m im chain st0 st (pre ++ r1 :: r2 :: post)))
+        (fst (hier_group m im chain st0 st (pre ++ r2 :: r1 :: post))) /\
+  Permutation (snd (hier_group m im chain st0 st (pre ++ r1 :: r2 :: post)))
+              (snd (hier_group m im chain st0 st (pre ++ r2 :: r1 :: post))).
+Proof. exact hier_group_swap. Qed.
+(* evaluation depends on the content of a state only *)
+Theorem C07_hierarchy_state_content_only : forall m im chain st0 rules a b, st_eq a b ->
+  st_eq (fst (hier_group m im chain st0 a rules)) (fst (hier_group m im chain st0 b rules)) /\
+  snd (hier_group m im chain st0 a rules) = snd (hier_group m im chain st0 b rules).
+Proof. exact hier_group_ext. Qed.
+
 (* the engine evaluates input mode `dataset` like `rule`: refuted with a witness; equal for the other input modes *)
 Theorem C07_hierarchy_impl_dataset_refuted :
   exists d rules, d_hierarchy_impl d rules NonNull IDataset HComputed <> d_hierarchy d rules NonNull IDataset HComputed.
@@ -306,5 +326,7 @@ Print Assumptions C07_hierarchy_result.
 Print Assumptions C07_hierarchy_computed_rows.
 Print Assumptions C07_hierarchy_dependency_order.
 Print Assumptions C07_hierarchy_order_is_permutation.
+Print Assumptions C07_hierarchy_order_independent_partial.
+Print Assumptions C07_hierarchy_state_content_only.
 Print Assumptions C07_hierarchy_impl_dataset_refuted.
 Print Assumptions C07_hierarchy_impl_partial.
